@@ -480,6 +480,24 @@ fn corpus(size: &str, seed: u64) -> (Vec<Case>, Vec<Case>) {
         singles.push(Case { input: vec![b'7', b, b'3'], ecl: Some(0), version: None, mask: Some(2), mode: None });
         singles.push(Case { input: vec![b'Z', b], ecl: Some(3), version: None, mask: Some(5), mode: None });
     }
+    // F. corner contents: empty / one-character payloads with every forced mode, and byte payloads that start, end or
+    //    are filled with notable byte patterns (UTF-8 BOM, NUL, pad-codeword look-alikes, CR LF, 0xFF)
+    for mode in 0..3 { for l in 0..4 { for v in [None, Some(0usize), Some(9), Some(26), Some(39)] {
+        singles.push(Case { input: vec![], ecl: Some(l), version: v, mask: Some((l + mode) % 8), mode: Some(mode) });
+        let one = fix_class(payload(&mut r, mode, 1, 0), mode);
+        singles.push(Case { input: one, ecl: Some(l), version: v, mask: None, mode: Some(mode) });
+    } } }
+    let pats: [&[u8]; 8] = [&[0xEF, 0xBB, 0xBF], &[0x00], &[0xEC, 0x11], &[0x11, 0xEC], &[0x0D, 0x0A], &[0xFF, 0xFE], &[0x20], &[0xC3, 0xA9]];
+    for (k, pat) in pats.iter().enumerate() { for len in [0usize, 1, 5, 17, 40, 100] {
+        let body = payload(&mut r, BYTE, len, 4);
+        let mut a: Vec<u8> = pat.to_vec(); a.extend(body.iter());
+        let mut b: Vec<u8> = body.clone(); b.extend(pat.iter());
+        let mut c: Vec<u8> = Vec::new(); while c.len() < len + 3 { c.extend(pat.iter()); }
+        for inp in [a, b, c] {
+            let m = best_mode(&inp);
+            singles.push(Case { input: inp, ecl: Some(k % 4), version: None, mask: Some(k % 8), mode: if m == BYTE { None } else { Some(BYTE) } });
+        }
+    } }
     // D. oversized inputs
     for mode in 0..3 { for l in 0..4 {
         let ml = max_len(39, mode, l);
